@@ -394,7 +394,11 @@ func (ph *phase) listing(prefix, what string, x span, data []*qlogsim.Entry, ful
 	if !full {
 		return got, nil
 	}
-	lostMem := 0
+	// Entries that must be there and are not.  The statement excludes records
+	// submitted while a flush is pending: up to ph.over entries that were in
+	// memory may have been overwritten (see the package comment).  That
+	// allowance goes first to the missing entries that nothing else explains.
+	var unexplained, inFlight []*pent
 	for _, p := range ph.ents {
 		if seen[p] {
 			continue
@@ -403,23 +407,32 @@ func (ph *phase) listing(prefix, what string, x span, data []*qlogsim.Entry, ful
 			continue
 		}
 		if inPhase && ph.flushInFlight(p, x) {
-			v := kernel.Violationf("par-listing-misses-entry-being-flushed", "%s: entry %s, recorded before the listing began, is not returned; it went from memory to the file while the listing ran (a flush takes its batch out of the memory buffer before it has written it)", what, p)
-			if c.Tolerate(v) {
-				continue
-			}
-			return nil, v
+			inFlight = append(inFlight, p)
+		} else {
+			unexplained = append(unexplained, p)
 		}
+	}
+	lostMem := 0
+	for _, p := range unexplained {
 		if (p.pre == "mem" || p.pre == "") && lostMem < ph.over {
-			// Excluded by the statement: see the package comment.
 			lostMem++
 			continue
 		}
-		cls := prefix + "misses-entry"
-		return nil, kernel.Violationf(cls, "%s: entry %s is not returned (%d of %d known entries returned; at most %d entries in memory can have been overwritten by records submitted while a flush was pending)", what, p, len(got), len(ph.ents), ph.over)
+		return nil, kernel.Violationf(prefix+"misses-entry", "%s: entry %s is not returned (%d of %d known entries returned; at most %d entries in memory can have been overwritten by records submitted while a flush was pending)", what, p, len(got), len(ph.ents), ph.over)
+	}
+	for _, p := range inFlight {
+		if lostMem < ph.over {
+			lostMem++
+			continue
+		}
+		v := kernel.Violationf("par-listing-misses-entry-being-flushed", "%s: entry %s, recorded before the listing began, is not returned; it went from memory to the file while the listing ran (a flush takes its batch out of the memory buffer before it has written it)", what, p)
+		if !c.Tolerate(v) {
+			return nil, v
+		}
 	}
 	if lostMem > 0 {
 		c.Probe("par_ring_overwrote_entries")
-		c.Eventf("  %s: %d entries overwritten in the ring buffer (submitted while a flush was pending: excluded)", what, lostMem)
+		c.Eventf("  %s: %d entries that were in memory are missing (records were submitted while a flush was pending: excluded)", what, lostMem)
 	}
 	return got, nil
 }
